@@ -10,6 +10,7 @@ import YarlModel
 import YarlProofs.C17
 import YarlProofs.C11
 import YarlProofs.C19Str
+import YarlProofs.Lemmas.BuildFix
 import YarlProofs.Lemmas.EagerLemmas
 import YarlProofs.C09
 set_option linter.unusedSimpArgs false
@@ -33,39 +34,35 @@ theorem splitNetloc_written_port (o : Oracles) (h : Str) (port : Option Nat)
     simp only [finish_hostPortStr o _ _ h port h91 h93 hp]
     exact ⟨_, rfl, rfl, rfl⟩
 
-/-- what a successful `build(encoded=False)` returns: scheme as given, no pre-filled cache, the netloc of
-    `buildNetloc`, and a port argument in range -/
+/-- what a successful `build(encoded=False)` returns: the scheme LOWERED (`sc`, fix e21485a: `lower a.scheme`
+    for an ASCII scheme, the oracle's answer otherwise), no pre-filled cache, the netloc of `buildNetloc`
+    on the arguments with the lowered scheme, and a port argument in range -/
 theorem build_parts (e : Env) (a : BuildArgs) (u : Url) (henc : a.encoded = false) (h : build e a = .ok u) :
-    u.scheme = a.scheme ∧ u.pre = none ∧ buildNetloc e a = .ok u.netloc ∧
-    (∀ p, a.port.map Int.toNat = some p → p ≤ 65535) := by
-  have hn := build_netloc e a u henc h
-  refine ⟨?_, ?_, hn.1, hn.2⟩
-  · unfold build at h
-    obtain ⟨_, h⟩ := ite_err_ok h
-    obtain ⟨_, h⟩ := ite_err_ok h
-    obtain ⟨_, h⟩ := ite_err_ok h
-    obtain ⟨_, h⟩ := ite_err_ok h
-    obtain ⟨_, h⟩ := ite_err_ok h
-    obtain ⟨qs, _, h⟩ := bind_ok h
-    rw [henc] at h
-    rw [if_neg (by decide)] at h
-    obtain ⟨netloc, _, h⟩ := bind_ok h
-    obtain ⟨path, _, h⟩ := bind_ok h
-    cases h
-    rfl
-  · unfold build at h
-    obtain ⟨_, h⟩ := ite_err_ok h
-    obtain ⟨_, h⟩ := ite_err_ok h
-    obtain ⟨_, h⟩ := ite_err_ok h
-    obtain ⟨_, h⟩ := ite_err_ok h
-    obtain ⟨_, h⟩ := ite_err_ok h
-    obtain ⟨qs, _, h⟩ := bind_ok h
-    rw [henc] at h
-    rw [if_neg (by decide)] at h
-    obtain ⟨netloc, _, h⟩ := bind_ok h
-    obtain ⟨path, _, h⟩ := bind_ok h
-    cases h
-    rfl
+    ∃ sc, lowerAny e a.scheme = .ok sc ∧ u.scheme = sc ∧ u.pre = none ∧
+      buildNetloc e { a with scheme := sc } = .ok u.netloc ∧
+      (∀ p, a.port.map Int.toNat = some p → p ≤ 65535) := by
+  obtain ⟨sc, hsc, hs, hn, hr⟩ := build_netloc e a u henc h
+  refine ⟨sc, hsc, hs, ?_, hn, hr⟩
+  unfold build at h
+  obtain ⟨_, h⟩ := ite_err_ok h
+  obtain ⟨_, h⟩ := ite_err_ok h
+  obtain ⟨_, h⟩ := ite_err_ok h
+  obtain ⟨_, h⟩ := ite_err_ok h
+  obtain ⟨_, h⟩ := ite_err_ok h
+  obtain ⟨qs, _, h⟩ := bind_ok h
+  rw [henc] at h
+  rw [if_neg (by decide)] at h
+  obtain ⟨sc', _, h⟩ := bind_ok h
+  obtain ⟨netloc, _, h⟩ := bind_ok h
+  obtain ⟨path, _, h⟩ := bind_ok h
+  cases h
+  rfl
+
+/-- the stored scheme of `build(encoded=False)` for an ASCII `scheme=`: lower case -/
+theorem build_scheme_ascii (e : Env) (a : BuildArgs) (u : Url) (henc : a.encoded = false)
+    (hasc : isAscii a.scheme = true) (h : build e a = .ok u) : u.scheme = lower a.scheme := by
+  obtain ⟨sc, hsc, hs, _⟩ := build_parts e a u henc h
+  rw [hs, BuildFix.lowerAny_ok_ascii hasc hsc]
 
 /-- a validated host is `bracket r` for an `r` without '@' '[' ']' (the empty answer of an IDNA oracle included) -/
 theorem encoded_host_plain (o : Oracles) (hs eh : Str) (h : encodeHost o hs true = .ok eh) :
@@ -109,32 +106,35 @@ open MiscLemmas
 
 /-! ### `build(host=…, port=…)` -/
 
-/-- the explicit port of `build(host=…, port=…)`: a port equal to the scheme default is dropped, any
-    other port in range (0 included) is kept; `port` falls back to the scheme default.
+/-- the explicit port of `build(host=…, port=…)`: a port equal to the default of the LOWERED scheme `sc`
+    (fix e21485a: `build(scheme="HTTP", port=80)` drops the port) is dropped, any other port in range
+    (0 included) is kept; `port` falls back to that default.  Stated for every `sc` the lowering step
+    returns, so nothing is lost for a non-ASCII scheme; `C17_build_port_ascii` is the ASCII instance.
     NOTE: the hypothesis "the encoded host is non-empty" of the request is not needed (an IDNA oracle
     answering "" gives the netloc ":port" / "", whose port reads back the same). -/
 theorem C17_build_port (e : Env) (a : BuildArgs) (u : Url) (henc : a.encoded = false) (hauth : a.authority = [])
-    (hhost : a.host ≠ []) : build e a = .ok u →
+    (hhost : a.host ≠ []) (sc : Str) (hsc : lowerAny e a.scheme = .ok sc) : build e a = .ok u →
     explicitPort e u = .ok (match a.port with
       | none => none
-      | some p => if some p.toNat = defaultPort a.scheme then none else some p.toNat) ∧
+      | some p => if some p.toNat = defaultPort sc then none else some p.toNat) ∧
     port e u = .ok (match (match a.port with
         | none => none
-        | some p => if some p.toNat = defaultPort a.scheme then none else some p.toNat) with
+        | some p => if some p.toNat = defaultPort sc then none else some p.toNat) with
       | some p => some p
-      | none => defaultPort a.scheme) := by
+      | none => defaultPort sc) := by
   intro hb
-  obtain ⟨hsch, hpre, hnl, hrange⟩ := build_parts e a u henc hb
+  obtain ⟨sc', hsc', hsch, hpre, hnl, hrange⟩ := build_parts e a u henc hb
+  obtain rfl : sc' = sc := by rw [hsc] at hsc'; exact (Except.ok.inj hsc').symm
   have hexp : explicitPort e u = .ok (match a.port with
       | none => none
-      | some p => if some p.toNat = defaultPort a.scheme then none else some p.toNat) := by
+      | some p => if some p.toNat = defaultPort sc' then none else some p.toNat) := by
     unfold buildNetloc at hnl
     have hne : a.host.isEmpty = false := isEmpty_false_of_ne hhost
     simp only [hauth, List.isEmpty_nil, Bool.not_true, Bool.false_eq_true, if_false, hne, Bool.not_false,
       if_true] at hnl
     obtain ⟨eh, heh, hnl⟩ := bind_ok hnl
     obtain ⟨r, hr, h64, h91, h93⟩ := encoded_host_plain e.o a.host eh heh
-    have hp' := normPort_le (a.port.map Int.toNat) a.scheme hrange
+    have hp' := normPort_le (a.port.map Int.toNat) sc' hrange
     rw [hr] at hnl
     have key := build_forms_port e a.user a.password r _ u hpre hnl h64 h91 h93 hp'
     rw [key]
@@ -143,30 +143,51 @@ theorem C17_build_port (e : Env) (a : BuildArgs) (u : Url) (henc : a.encoded = f
   rw [C17_port_fallback e u _ hexp, hsch]
   generalize (match a.port with
       | none => none
-      | some p => if some p.toNat = defaultPort a.scheme then none else some p.toNat) = X
+      | some p => if some p.toNat = defaultPort sc' then none else some p.toNat) = X
   cases X <;> rfl
 
-/-- the same in closed form: `port` is the port given, else the scheme default -/
+/-- the ASCII instance: the default port is that of `lower a.scheme` -/
+theorem C17_build_port_ascii (e : Env) (a : BuildArgs) (u : Url) (henc : a.encoded = false)
+    (hauth : a.authority = []) (hhost : a.host ≠ []) (hasc : isAscii a.scheme = true) : build e a = .ok u →
+    explicitPort e u = .ok (match a.port with
+      | none => none
+      | some p => if some p.toNat = defaultPort (lower a.scheme) then none else some p.toNat) ∧
+    port e u = .ok (match (match a.port with
+        | none => none
+        | some p => if some p.toNat = defaultPort (lower a.scheme) then none else some p.toNat) with
+      | some p => some p
+      | none => defaultPort (lower a.scheme)) :=
+  C17_build_port e a u henc hauth hhost _ (BuildFix.lowerAny_ascii e a.scheme hasc)
+
+/-- the same in closed form: `port` is the port given, else the default of the lowered scheme -/
 theorem C17_build_port_value (e : Env) (a : BuildArgs) (u : Url) (henc : a.encoded = false) (hauth : a.authority = [])
-    (hhost : a.host ≠ []) : build e a = .ok u →
+    (hhost : a.host ≠ []) (sc : Str) (hsc : lowerAny e a.scheme = .ok sc) : build e a = .ok u →
     port e u = .ok (match a.port with
-      | none => defaultPort a.scheme
+      | none => defaultPort sc
       | some p => some p.toNat) := by
   intro hb
-  rw [(C17_build_port e a u henc hauth hhost hb).2]
+  rw [(C17_build_port e a u henc hauth hhost sc hsc hb).2]
   cases a.port with
   | none => rfl
   | some p =>
-    by_cases hd : some p.toNat = defaultPort a.scheme
+    by_cases hd : some p.toNat = defaultPort sc
     · simp only [if_pos hd]
       rw [hd]
     · simp only [if_neg hd]
+
+/-- `build` succeeded, so the lowering step did: the two statements above always apply -/
+theorem C17_build_lowered (e : Env) (a : BuildArgs) (u : Url) (henc : a.encoded = false) :
+    build e a = .ok u → ∃ sc, lowerAny e a.scheme = .ok sc ∧ u.scheme = sc := by
+  intro hb
+  obtain ⟨sc, hsc, hs, _⟩ := build_parts e a u henc hb
+  exact ⟨sc, hsc, hs⟩
 
 /-- a port given to `build` that survives is in range -/
 theorem C17_build_port_range (e : Env) (a : BuildArgs) (u : Url) (henc : a.encoded = false) :
     build e a = .ok u → ∀ p, explicitPort e u = .ok (some p) → p ≤ 65535 := by
   intro hb p hp
-  exact C17_explicit_port_range e u p (build_parts e a u henc hb).2.1 hp
+  obtain ⟨_, _, _, hpre, _⟩ := build_parts e a u henc hb
+  exact C17_explicit_port_range e u p hpre hp
 
 /-! ### rejected `port=` arguments -/
 
@@ -273,6 +294,10 @@ example : (build eC { scheme := "http".toStr, host := "h".toStr, port := some 0 
     (fun u => do pure (u.netloc, ← explicitPort eC u, ← port eC u)) = .ok ("h:0".toStr, some 0, some 0) := by rfl
 example : (build eC { scheme := "http".toStr, host := "h".toStr }).bind
     (fun u => do pure (u.netloc, ← explicitPort eC u, ← port eC u)) = .ok ("h".toStr, none, some 80) := by rfl
+-- the default port is that of the LOWERED scheme (fix e21485a)
+example : (build eC { scheme := "HTTP".toStr, host := "h".toStr, port := some 80 }).bind
+    (fun u => do pure (u.scheme, u.netloc, ← explicitPort eC u, ← port eC u)) =
+    .ok ("http".toStr, "h".toStr, none, some 80) := by rfl
 example : (build eC { scheme := "foo".toStr, host := "h".toStr }).bind
     (fun u => do pure (u.netloc, ← explicitPort eC u, ← port eC u)) = .ok ("h".toStr, none, none) := by rfl
 example : (build eC { scheme := "https".toStr, host := "h".toStr, port := some 65535 }).bind
